@@ -131,7 +131,8 @@ ChainSol(m, t) == LET w == IF m.edges = <<>> THEN 0 ELSE m.edges[1].w IN
                     m.x0[2] + m.c[2] * t + w * m.x0[1] * t + (w * m.c[1] * t * t) \div 2>>
 ExactRows(cs) == [r \in 1..(cs.cfg.steps \div cs.cfg.store) |-> ChainSol(cs.m, (r - 1) * cs.cfg.store)]
 
-Init == /\ case \in Cases
+InitCase(cs) ==
+        /\ case = cs
         /\ pc = (IF case.cfg.solver = "scipy" THEN "done" ELSE "store") /\ i = 0 /\ ncalls = 0
         /\ y = case.m.x0
         /\ k1 = case.m.x0 /\ k2 = case.m.x0 /\ y0p = case.m.x0
@@ -139,6 +140,7 @@ Init == /\ case \in Cases
         /\ rec = (IF case.cfg.solver = "scipy" THEN ExactRows(case) ELSE <<>>)
         /\ ysM = <<case.m.x0>> /\ ysA = <<case.m.x0>>
         /\ histP = <<case.m.x0>>
+Init == \E cs \in Cases : InitCase(cs)
 
 Setup ==  \* buffers are allocated (zero-filled) by the compile step, before the first RHS call
   [s \in Nodes |-> IF HasBuffer(s) THEN [j \in 1..BufLen(s) |-> 0] ELSE <<>>]
